@@ -212,7 +212,11 @@ func (g *Gen) genExpr(s schema, t string, d int) Expr {
 	}
 	if d <= 0 || g.rng.Intn(4) == 0 {
 		if len(cols) > 0 && g.rng.Intn(3) != 0 {
-			return Expr{K: "col", Name: toBS(g.oneOf(cols))}
+			c := Expr{K: "col", Name: toBS(g.oneOf(cols))}
+			if g.rng.Intn(6) == 0 {
+				return Expr{K: "val", Args: []Expr{c}} // Val(column) is an expression too
+			}
+			return c
 		}
 		return Expr{K: "const", V: g.constOf(t)}
 	}
